@@ -99,3 +99,8 @@ Definition sp_abel_ptG (cols : list (list R)) (r cs rho0 rmax : R) : R :=
 
 Definition sp_abelQ_at (cols : list (list Q)) (r cs rmin rmax : Q) : R :=
   sp_abel_ptG (map (map Q2R) cols) (Q2R r) (Q2R cs) (Q2R (Qmax r rmin)) (Q2R rmax).
+
+(* one piece of PiecewiseSPolynomial at a pixel with r > 0 (SPolynomial leaves abel = 0 for r >= r_max;
+   negative r_min is read as 0) *)
+Definition sp_piece_abelQ_at (cols : list (list Q)) (r0 s r cs rmin rmax : Q) : R :=
+  if Qltb r rmax then sp_abelQ_at (sp_prepareQ cols r0 s) r cs (Qmax rmin 0) rmax else 0.
